@@ -400,6 +400,29 @@ def expansion_is_paths(self, particle, result):
 
 
 # --------------------------------------------------------------------------------------------------
+# C18  ModelDecay.list_structure
+
+
+@_monitor("C18.list_structure.equals_bruteforce")
+def structure_equals_bruteforce(self, final_states, result):
+    import itertools  # noqa: PLC0415
+
+    def leaves(n):
+        return [n.particle] if not n.daughters else [x for d in n.daughters for x in leaves(d)]
+
+    lv = leaves(self)
+    fs = list(final_states)
+    if len(fs) > 6 or len(lv) > 6:
+        COUNTS["C18.list_structure.too_large"] += 1
+        return
+    exp = [p for p in itertools.permutations(range(len(fs)), len(lv)) if all(fs[p[i]] == lv[i] for i in range(len(lv)))]
+    got = [tuple(x) for x in result]
+    if sorted(got) != sorted(exp) or len(got) != len(set(got)):
+        record("C18", "permutations:contract:not-the-one-to-one-assignments", f"list_structure gives {sorted(got)[:6]} ({len(got)}), brute force {sorted(exp)[:6]} ({len(exp)})",
+               {"leaves": [str(x) for x in lv], "final_states": [str(x) for x in fs]})
+
+
+# --------------------------------------------------------------------------------------------------
 # C14  DescriptorFormat scoping: shadow stack keyed by context-object identity
 
 SHADOW: dict = {}
@@ -559,6 +582,11 @@ def arm(*groups):
 
             D.DecFileParser.build_decay_chains = build_decay_chains
             D.DecFileParser.expand_decay_modes = icontract.ensure(expansion_is_paths, error=ContractBroken)(D.DecFileParser.expand_decay_modes)
+        elif g == "list_structure":
+            import decaylanguage.modeling.decay as MD  # noqa: PLC0415
+
+            f = _budgeted(MD.ModelDecay.list_structure, lambda self, final_states: 40 + 5 ** min(len(final_states), 5), ["decaylanguage.modeling.decay:ModelDecay.list_structure"])
+            MD.ModelDecay.list_structure = icontract.ensure(structure_equals_bruteforce, error=ContractBroken)(f)
         elif g == "descriptor_format":
             import decaylanguage.utils.utilities as UU  # noqa: PLC0415
 
